@@ -22,6 +22,8 @@ BOUNDS = [
     "(symbolic parent indices), ONE operation (inductive step) with <=2 arguments and all flag values",
     "operations: add (1 and 2 arguments, override_parent), remove (1-2 arguments, recursive, errors), parent= (collection / None / invalid), children=, "
     "sources=, sensors=, collections= (0-2 elements), +, copy",
+    "depth 3 (both tiers): universe T, M, L collections + a Sensor, the 24 forests with parent(M) in {None,T}, parent(L) in {None,T,M}, parent(sensor) anywhere; "
+    "add (1 argument, override_parent), parent=, children= / collections= (1 element), remove (recursive, errors) with every target and argument",
 ]
 CUTS = []
 ASSUMPTIONS = ["the invariant used as pre-state validity IS the property (so every pre-state is reachable by add operations from the empty state)",
